@@ -331,6 +331,80 @@ func c05(c *Ctx) {
 		}
 	})
 
+	c.Rule("C05.R3b", "batch accounting in the parser loop: the bad-line, event and metric totals of every received batch are added to the parser's counters whatever the batch contains (the adds post-dominate the parse; the added values are the per-datagram sums of handleDatagram's results)", 6, func(r *Rule) {
+		run := w.Func("pkg/statsd", "(*DatagramParser).Run")
+		hd := w.Func("pkg/statsd", "(*DatagramParser).handleDatagram")
+		if run == nil || hd == nil {
+			r.Unresolved("(*DatagramParser).Run / handleDatagram")
+			return
+		}
+		c.SawFunc(FuncName(run))
+		hcs := callsTo(run, "(*pkg/statsd.DatagramParser).handleDatagram")
+		if !r.Check("Run:one-handleDatagram-site", len(hcs) == 1, run.Pos(), fmt.Sprintf("%d handleDatagram call sites", len(hcs))) {
+			return
+		}
+		hc := hcs[0].(*ssa.Call)
+		// which result of handleDatagram is which counter
+		resIdx := map[string]int{}
+		eachInstr(hd, func(in ssa.Instruction) {
+			if ret, ok := in.(*ssa.Return); ok {
+				for i, v := range ret.Results {
+					if ph, ok := v.(*ssa.Phi); ok {
+						resIdx[ph.Comment] = i
+					}
+				}
+			}
+		})
+		pd := newPostDom(run)
+		want := map[string]string{"eventsReceived": "numEvents", "Cur": "numBad", "metricsReceived": "metrics"}
+		seen := map[string]int{}
+		for _, cl := range callsTo(run, "sync/atomic.AddUint64") {
+			_, f, _, ok := fieldRef(cl.Common().Args[0])
+			if !ok {
+				continue
+			}
+			src, known := want[f]
+			if !known {
+				continue
+			}
+			seen[f]++
+			r.Check("Run:"+f+":every-batch", pd.PostDominates(cl.Block(), hc.Block()), cl.Pos(), "the add to "+f+" is executed for every parsed batch (it post-dominates the handleDatagram call)")
+			v := cl.Common().Args[1]
+			if f == "metricsReceived" {
+				okLen := false
+				if cv, ok := v.(*ssa.Convert); ok {
+					if lc, ok := cv.X.(*ssa.Call); ok && isCall(lc, "builtin len") {
+						if ph, ok := lc.Call.Args[0].(*ssa.Phi); ok && ph.Comment == "metrics" {
+							okLen = true
+						}
+					}
+				}
+				r.Check("Run:"+f+":value", okLen, cl.Pos(), "adds len(metrics)")
+				continue
+			}
+			okSum := false
+			if ph, ok := v.(*ssa.Phi); ok {
+				zero, sum := false, false
+				for _, e := range ph.Edges {
+					if n, isC := constInt(e); isC && n == 0 {
+						zero = true
+					} else if b, isB := e.(*ssa.BinOp); isB && b.Op == token.ADD && b.X == ssa.Value(ph) {
+						if ex, ok := b.Y.(*ssa.Extract); ok && ex.Tuple == ssa.Value(hc) {
+							if i, has := resIdx[src]; has && i == ex.Index {
+								sum = true
+							}
+						}
+					}
+				}
+				okSum = zero && sum && len(ph.Edges) == 2
+			}
+			r.Check("Run:"+f+":value", okSum, cl.Pos(), "adds the sum over the batch's datagrams of handleDatagram's "+src+" result")
+		}
+		for _, f := range []string{"Cur", "eventsReceived", "metricsReceived"} {
+			r.Check("Run:"+f+":one-add", seen[f] == 1, run.Pos(), fmt.Sprintf("%d atomic adds to %s", seen[f], f))
+		}
+	})
+
 	c.Rule("C05.R4", "metadata: every metric gets the datagram's receive time; source is the sender address, or with ignore-host the first host: tag which is then removed", 6, func(r *Rule) {
 		hd := w.Func("pkg/statsd", "(*DatagramParser).handleDatagram")
 		if hd == nil {
@@ -469,6 +543,8 @@ func c05(c *Ctx) {
 			}
 		}
 		r.Check("receiveGauge:found-branch-store", n >= 1, rg.Pos(), fmt.Sprintf("%d value stores in the found branch", n))
+		// the updated copy is stored back into the map (maps hold the series by value), for all four types
+		writeBackAll(c, r, func(fn *ssa.Function) bool { return strings.Contains(fn.Name(), "receive") })
 		// Run folds metrics in slice order
 		run := w.Func("pkg/statsd", "(*DatagramParser).Run")
 		if run == nil {
